@@ -70,11 +70,13 @@ pub struct Exec {
     pub spawnq: SpawnQueue,
     pub log: Log,
     pub policy: Policy,
+    /// the poll budget was exhausted once: the scenario is a livelock, later `run()` calls return at once
+    pub dead: bool,
 }
 
 impl Exec {
     pub fn new(log: Log) -> Exec {
-        Exec { tasks: vec![], spawnq: Rc::new(RefCell::new(vec![])), log, policy: Policy::Lo }
+        Exec { tasks: vec![], spawnq: Rc::new(RefCell::new(vec![])), log, policy: Policy::Lo, dead: false }
     }
 
     pub fn spawn(&mut self, name: &str, status: Status, fut: Pin<Box<dyn Future<Output = ()>>>) -> usize {
@@ -139,6 +141,9 @@ impl Exec {
     /// Poll woken tasks until none is woken. Returns false if the poll budget was exhausted (livelock).
     pub fn run(&mut self) -> bool {
         self.drain_spawns();
+        if self.dead {
+            return false;
+        }
         let mut budget = 200_000u64;
         loop {
             let woken = |t: &Task| t.fut.is_some() && t.flag.woken.load(Ordering::SeqCst);
@@ -164,8 +169,9 @@ impl Exec {
                 Some(i) => {
                     self.step(i);
                     budget -= 1;
-                    if budget == 0 {
+                    if budget == 0 || self.log.runaway() {
                         self.log.push(json!({"ev": "livelock"}));
+                        self.dead = true;
                         return false;
                     }
                 }
